@@ -848,6 +848,9 @@ class Body:
                 base = ("index", base, self._origin_local(pr["index"], depth + 1, seen))
             elif isinstance(pr, dict) and "cidx" in pr:
                 base = ("cindex", base, pr["cidx"], pr["from_end"])
+            elif isinstance(pr, dict) and "sub_from" in pr:
+                # `[a, rest @ .., z]`: elements from..to (to counted from the end when from_end)
+                base = ("subslice", base, pr["sub_from"], pr["sub_to"], pr["from_end"])
             else:
                 base = ("proj", base, str(pr))
         return base
